@@ -92,9 +92,12 @@ def main():
                 status += " (false alarm on " + ",".join(quiet_bad) + ")"
                 ok = False
             print(f"{status:8s} {name:45s} property={prop} rc={rc} violations={len(viol)}")
+            if os.environ.get("SELFTEST_SHOW"):
+                for l in viol:
+                    print("   ", l[:220])
             if not hit and os.environ.get("SELFTEST_VERBOSE"):
                 print(out[-2000:])
-            results.append({"mutant": name, "property": prop, "status": status})
+            results.append({"mutant": name, "property": prop, "status": status, "replayed": sum(1 for l in viol if not l.rstrip().endswith("no-failing-input-found"))})
         finally:
             shutil.rmtree(tmp, ignore_errors=True)
     json.dump(results, open(os.path.join(ROOT, "last_run.json"), "w"), indent=1)
